@@ -8,6 +8,8 @@ package serf
 // against the compiled code.
 
 import (
+	"os"
+	"time"
 	"runtime"
 	"sync"
 	"fmt"
@@ -124,3 +126,28 @@ func vfGo(f func()) {
 }
 func vfWaitThreads() { vfWG.Wait() }
 func vfYield()       { runtime.Gosched() }
+
+// vfTier: 0 = quick, 1 = thorough (bounds selection inside harnesses).
+func vfTier() int {
+	if os.Getenv("VERIF_TIER") == "thorough" {
+		return 1
+	}
+	return 0
+}
+
+// vfYieldTo lets other goroutines run (engine: forced switch to another enabled thread).
+func vfYieldTo() { runtime.Gosched(); time.Sleep(time.Millisecond) }
+
+// vfTime: a symbolic instant. Natively instants are offsets from a fixed base
+// carrying a monotonic reading, so Sub/After/Before agree with the engine's model.
+var vfBaseTime = time.Now()
+
+func vfTime(name string) time.Time {
+	return vfBaseTime.Add(time.Duration(vfRaw(vfName(name)) & (1<<62 - 1)))
+}
+func vfB2I(b bool) int {
+	if b {
+		return 1
+	}
+	return 0
+}
